@@ -279,7 +279,18 @@ func genUserMethods(r *RNG) *uCase {
 				feats["early-return"] = true
 				feats[fmt.Sprintf("early-return-form-%d", form)] = true
 			}
-			switch r.Intn(4) {
+			switch r.Intn(5) {
+			case 4:
+				// a begin expression: the body's value or the rescue clause's, never
+				// the ensure clause's
+				c1, c2 := Pick(r, scal), Pick(r, scal)
+				m.def = append(m.def, "  begin", "    "+nLit(c1), "  rescue", "    "+nLit(c2))
+				if r.Bool() {
+					m.def = append(m.def, "  ensure", "    "+nLit(Pick(r, scal)))
+				}
+				m.def = append(m.def, "  end")
+				ret = append(ret, c1, c2)
+				feats["returns-begin-rescue"] = true
 			case 3:
 				// an instance of a user class, at top level or inside a namespace
 				oc := Pick(r, []string{"Retbox", "Shapes::Retbox"})
@@ -663,7 +674,7 @@ func init() {
 			return judgeUser(c, s.BlackBox(), &uc)
 		},
 		Run: func(c *CheckCtx) {
-			c.rule = "generated programs: 1-4 user methods (top level, instance methods and class methods of a class) with positional, default and keyword parameters; 1-5 call sites each with literal or union-variable arguments, before the definition (top-level methods), after it, and inside other methods that are themselves called; bodies probe every parameter with dbtp, may contain `p.to_s` (every class answers) or `p.zz_nope` (none answers), an explicit return in one of nine positions (modifier if/unless, inside if, bare, inside a block, a while, a case), and end in a literal, a parameter or `p.to_s`; run with -i. Oracle: each parameter probe and the -i signature hint cover the union of the classes passed at all call sites (and contain no class that is neither passed nor the default's); each call's result equals the union of the body result and explicit return values; no diagnostic on `p.to_s`, a diagnostic on `p.zz_nope`. distinct_nontrivial = distinct programs"
+			c.rule = "generated programs: 1-4 user methods (top level, instance methods and class methods of a class) with positional, default and keyword parameters; 1-5 call sites each with literal or union-variable arguments, before the definition (top-level methods), after it, and inside other methods that are themselves called; bodies probe every parameter with dbtp, may contain `p.to_s` (every class answers) or `p.zz_nope` (none answers), an explicit return in one of nine positions (modifier if/unless, inside if, bare, inside a block, a while, a case), and end in a begin/rescue/ensure expression, a literal, a parameter or `p.to_s`; run with -i. Oracle: each parameter probe and the -i signature hint cover the union of the classes passed at all call sites (and contain no class that is neither passed nor the default's); each call's result equals the union of the body result and explicit return values; no diagnostic on `p.to_s`, a diagnostic on `p.zz_nope`. distinct_nontrivial = distinct programs"
 			c.assumptions = []string{"a defaulted parameter's type includes its default literal's class", "methods whose body contains the failing operation are not judged for their return type (recovery ends the body)"}
 			r := c.RNG.Sub(15)
 			n := c.N(300, 8000)
